@@ -554,13 +554,13 @@ func runC19(c *vx.Ctx) {
 	// three universes, each explored exhaustively to its own depth (see c19Alphabet); the
 	// smallest universe goes deepest and runs first
 	if c.Wants("sections-acctA") {
-		c19Sections(c, w, "sections-acctA", "acctA", pick(5, 7), at(18*time.Second, 3*time.Minute))
+		c19Sections(c, w, "sections-acctA", "acctA", pick(5, 8), at(18*time.Second, 4*time.Minute))
 	}
 	if c.Wants("sections-small") {
-		c19Sections(c, w, "sections-small", "small", pick(5, 6), at(28*time.Second, 5*time.Minute))
+		c19Sections(c, w, "sections-small", "small", pick(5, 7), at(28*time.Second, 7*time.Minute))
 	}
 	if c.Wants("sections") {
-		c19Sections(c, w, "sections", "full", pick(4, 5), at(42*time.Second, 10*time.Minute+30*time.Second))
+		c19Sections(c, w, "sections", "full", pick(4, 5), at(42*time.Second, 11*time.Minute))
 	}
 	if c.Wants("race") {
 		c19Race(c, at(56*time.Second, 13*time.Minute+30*time.Second))
